@@ -1,0 +1,66 @@
+//go:build verif
+
+// Contracts for govc (/verif): value codecs used by the storage lock properties C03/C04 (T-KV). Comment-only file.
+
+package common
+
+//@ -- Stored UTXO record (UTXOWithLock.Marshal / UnmarshalUTXO): Asset | Input | Output | LockHash(32 bytes, last).
+//@ -- UtxoLock(v) is the LockHash field of the record encoded by the byte string with value id v (builtin kvval).
+//@ -- ASSUMED inverse pair for the lock field: decoding yields UtxoLock of the bytes; the encoding of a record u is a byte
+//@ -- string whose UtxoLock is u.LockHash. (The rest of the record is not modelled here: see the report, C06 covers codecs.)
+//@ uninterp UtxoLock(v mathint) crypto.Hash
+
+//@ assume func UnmarshalUTXO
+//@   modifies nothing
+//@   ensures err == nil ==> result0 != nil && fresh(result0) && result0.LockHash == UtxoLock(kvval(b))
+
+//@ assume func (out *UTXOWithLock) Marshal
+//@   requires out != nil
+//@   modifies nothing
+//@   ensures fresh(result) && UtxoLock(kvval(result)) == out.LockHash
+
+//@ -- A stored lock holder (GHOST/<key>, DEPOSIT/<key> entries, FINALIZATION/<tx>) is the raw 32 bytes of a hash:
+//@ -- HashOfVal(v) is the hash whose 32-byte string has value id v (inverse of kvval on 32-byte arrays; kvval is injective).
+//@ uninterp HashOfVal(v mathint) crypto.Hash
+//@ axiom forall h crypto.Hash :: {kvval(h)} HashOfVal(kvval(h)) == h
+
+//@ -- Deposit slot identity: UniqueKey is a deterministic function of (Chain, Transaction, Index) only
+//@ -- (Sprintf("%s:%s:%d") then SHA-256 then ForNetwork(chain)); it does not read AssetKey or Amount. ASSUMED.
+//@ -- That different triples give different slots holds up to hash collisions (the format is injective: the chain is
+//@ -- fixed-width hex and the index is the digits after the last ':'); no axiom states it and no proof needs it.
+//@ uninterp DepositUniq(chain crypto.Hash, txid string, index mathint) crypto.Hash
+//@ assume func (d *DepositData) UniqueKey
+//@   requires d != nil
+//@   modifies nothing
+//@   ensures result == DepositUniq(d.Chain, d.Transaction, d.Index)
+
+//@ -- Stored mint distribution (MintDistribution.Marshal / UnmarshalMintDistribution): group(2) | batch(8) | amount | tx(32).
+//@ -- MintTx/MintAmount/MintBatch are the fields of the record encoded by the byte string with value id v. ASSUMED inverse pair.
+//@ uninterp MintTx(v mathint) crypto.Hash
+//@ uninterp MintAmount(v mathint) mathint
+//@ uninterp MintBatch(v mathint) mathint
+
+//@ -- Its errors are fmt.Errorf values and Decoder read errors; package common does not import badger, so it can never
+//@ -- return badger's sentinel ErrKeyNotFound (storage.readMintInput's callers test the returned error against it).
+//@ assume func UnmarshalMintDistribution
+//@   modifies nothing
+//@   ensures err != badger.ErrKeyNotFound
+//@   ensures err == nil ==> result0 != nil && fresh(result0) && result0.Transaction == MintTx(kvval(b)) && val(result0.Amount) == MintAmount(kvval(b)) && result0.Batch == MintBatch(kvval(b))
+
+//@ assume func (m *MintDistribution) Marshal
+//@   requires m != nil
+//@   panics when m.Group != mintGroupUniversal
+//@   modifies nothing
+//@   ensures fresh(result) && MintTx(kvval(result)) == m.Transaction && MintAmount(kvval(result)) == val(m.Amount) && MintBatch(kvval(result)) == m.Batch
+
+//@ assume func (m *MintData) Distribute
+//@   requires m != nil
+//@   modifies nothing
+//@   ensures result != nil && fresh(result) && result.Transaction == tx && result.Group == m.Group && result.Batch == m.Batch && val(result.Amount) == val(m.Amount)
+
+//@ -- PayloadHash computes (and caches in ver.hash / ver.pmbytes) the Blake3 hash of the payload encoding; it writes nothing
+//@ -- else. It panics for an unknown transaction version or (config.Debug) a payload that does not decode: excluded for
+//@ -- decoded/validated transactions, not proved here. ASSUMED frame; no functional postcondition.
+//@ assume func (ver *VersionedTransaction) PayloadHash
+//@   requires ver != nil
+//@   modifies ver.hash, ver.pmbytes
